@@ -7,6 +7,9 @@ Streams
   parse  TrigTime.parse_date_time / parse_time_offset directly (calendar layer, unit table)
   ha     running @time_trigger functions on the virtual clock under both subsystems: trigger_time and run time of every
          run against the successor chain, startup / shutdown entries
+  dst    running cron() / once() / period() functions for 50-62 h across the fall-back and the spring-forward change of
+         America/Los_Angeles, both subsystems, on a DST-aware wall clock (naive local time of a UTC instant that advances with
+         the virtual loop): every run must happen when the wall clock reads its trigger_time, period() runs equally spaced
 
 The spec AST, its renderer and the datetime oracle are shared with run_C07.
 """
@@ -35,7 +38,9 @@ RULE = ("next: lists of 1-3 specifications generated from the documented grammar
         "the DST days of America/Los_Angeles; every answer t is re-queried at t-1us (same answer) and at t (a later one); "
         "parse: every date/time/offset form through parse_date_time with day offsets -1..2; ha: 1-3 specifications per function "
         "running on the virtual clock (strictly increasing dt_now) under legacy and new subsystem, run instants and trigger_time "
-        "against the successor chain, startup / shutdown entries on definition / removal.  Non-trivial: every case has at least "
+        "against the successor chain, startup / shutdown entries on definition / removal; dst: 4-6 single-specification functions "
+        "(daily and hourly cron, once(h:m[:s]), period with dated / time-only start, intervals 90 min - 1 d) started the day before "
+        "the fall-back / spring-forward night and run for 50-62 h of real time under both subsystems.  Non-trivial: every case has at least "
         "one specification; distinct by payload.")
 ASSUMPTIONS = [
     "croniter.get_next, astral sunrise/sunset and the zone offset (dt_util.as_local) are parameters of the model (cronNext, sun, "
@@ -512,7 +517,7 @@ def _near(rng, t, period=False):
 
 def gen_cases(rng, tier, search):
     k = {"quick": 1, "thorough": 8}[tier] * (3 if search else 1)
-    return corpus_cases() + gen_next(rng, 420 * k) + gen_parse(rng, 300 * k) + gen_ha(rng, 8 * k)
+    return corpus_cases() + dst_corpus() + gen_next(rng, 420 * k) + gen_parse(rng, 300 * k) + gen_ha(rng, 8 * k) + gen_dst(rng, 6 * k)
 
 
 # ------------------------------------------------------------------------------------------------ running the real code
@@ -643,6 +648,7 @@ def run_impl(cases):
     direct = [c for c in cases if c.payload["kind"] in ("next", "parse", "offset")]
     if direct:
         _run_direct(direct)
+    run_dst_cases([c for c in cases if c.payload["kind"] == "dst"])
     ha = [c for c in cases if c.payload["kind"] == "ha"]
     groups = {}
     for c in ha:
@@ -669,6 +675,227 @@ def run_impl(cases):
             c.impl = " ".join(parts) + ("" if not late else " late=" + ",".join(late))
     for c in cases:
         c.line = make_line(c)
+
+
+# ================================================================================================ DST stream
+# Running @time_trigger functions across a daylight-saving change: the wall clock dt_now() is the naive local time of
+# America/Los_Angeles at a UTC instant that advances with the virtual loop (real elapsed seconds), so that a day has 25 h or
+# 23 h of real time.  Oracle: a cron()/once() run happens when the wall clock reads the denoted instant and gets that instant as
+# trigger_time; period() runs are equally spaced in real time.
+UTC = dt.timezone.utc
+DST_DAYS = {"fall": dt.datetime(2024, 11, 3), "spring": dt.datetime(2024, 3, 10)}
+H_US = 3600 * 1000000
+
+
+def _zone_tables():
+    """piecewise constant offsets (us) of the wall clock: by real (UTC) time, and by naive local time with fold=0"""
+    real, naive = [], []
+    t = dt.datetime(2023, 12, 31, tzinfo=UTC)
+    prev = t.astimezone(LA).utcoffset() // US
+    real.append([-10**18, prev])
+    naive.append([-10**18, prev])
+    end = dt.datetime(2025, 1, 2, tzinfo=UTC)
+    while t < end:
+        t += dt.timedelta(hours=1)
+        off = t.astimezone(LA).utcoffset() // US
+        if off != prev:
+            u = (t - dt.datetime(1970, 1, 1, tzinfo=UTC)) // US
+            real.append([u, off])
+            naive.append([u + max(prev, off), off])
+            prev = off
+    return real, naive
+
+
+ZREAL, ZNAIVE = _zone_tables()
+
+
+def gen_dst(rng, n_scen):
+    cases = []
+    for sc_i in range(n_scen):
+        which = "fall" if sc_i % 2 == 0 else "spring"
+        day0 = DST_DAYS[which] - DAY
+        # minute 7: no denoted instant coincides with the start-up time (on a clock that does not tick between two reads the
+        # start-up rule `now == this_t == startup_time` would re-fire forever)
+        start = day0.replace(hour=rng.choice([4, 9, 15, 20]), minute=7)
+        hours = rng.choice([50, 56, 62])
+        funcs = []
+        for _ in range(rng.choice([4, 5, 6])):
+            r = rng.random()
+            hh, mm = rng.choice([0, 3, 4, 5, 6, 9, 12, 18, 22, 23]), rng.choice([0, 0, 15, 30, 45])
+            if r < 0.3:
+                funcs.append({"kind": "cron", "expr": f"{mm} {hh} * * *"})
+            elif r < 0.4:
+                funcs.append({"kind": "cron", "expr": f"{mm} * * * *"})
+            elif r < 0.65:
+                funcs.append({"kind": "once", "d": ["at", "none", ["hms", hh, mm, rng.choice([0, 0, 30000000])], None]})
+            elif r < 0.92:
+                per = rng.choice([[1, "1", "d"], [1, "12", "h"], [1, "6", "hours"], [1, "90", "min"], [1, "24", "h"]])
+                funcs.append({"kind": "period", "s": ["at", ["full", day0.year, day0.month, day0.day], ["hms", hh, mm, 0], None], "per": per,
+                              "e": None})
+            else:
+                funcs.append({"kind": "period", "s": ["at", "none", ["hms", 0, mm, 0], None], "per": [1, "6", "h"], "e": None})
+        scen = {"id": sc_i, "which": which, "start": us_of(start), "hours": hours, "funcs": funcs}
+        for legacy in (True, False):
+            for fi in range(len(funcs)):
+                cases.append(Case({"kind": "dst", "legacy": legacy, "scen": scen, "fi": fi}, None,
+                                  tags=("dst", which, "legacy" if legacy else "new", funcs[fi]["kind"])))
+    return cases
+
+
+def dst_corpus():
+    """the seeder's witness (cron(0 6 * * *) over the fall-back night) and its spring counterpart, plus once()/period()"""
+    out = []
+    for i, which in enumerate(("fall", "spring")):
+        day0 = DST_DAYS[which] - DAY
+        funcs = [{"kind": "cron", "expr": "0 6 * * *"}, {"kind": "once", "d": ["at", "none", ["hms", 6, 30, 0], None]},
+                 {"kind": "period", "s": ["at", ["full", day0.year, day0.month, day0.day], ["hms", 18, 0, 0], None], "per": [1, "1", "d"], "e": None},
+                 {"kind": "cron", "expr": "30 * * * *"}]
+        scen = {"id": f"corpus-{which}", "which": which, "start": us_of(day0.replace(hour=5, minute=7)), "hours": 62, "funcs": funcs}
+        for legacy in (True, False):
+            for fi in range(len(funcs)):
+                out.append(Case({"kind": "dst", "legacy": legacy, "scen": scen, "fi": fi}, None,
+                                tags=("dst", "corpus", which, "legacy" if legacy else "new", funcs[fi]["kind"])))
+    return out
+
+
+def _dst_script(scen):
+    lines = []
+    for fi, f in enumerate(scen["funcs"]):
+        lines += [f"@time_trigger({json.dumps(render_tspec(f))})", f"def f{fi}(**kw):", f"    rec2({fi}, str(kw['trigger_time']))", ""]
+    return "\n".join(lines) + "\n"
+
+
+def _run_dst(arg):
+    scen, legacy = arg
+    from ha_env import run_ha
+    from custom_components.pyscript import trigger
+    from custom_components.pyscript.function import Function
+    start_local = dt_of(scen["start"])
+
+    async def body(env):
+        loop = env.loop
+        utc0 = start_local.replace(tzinfo=LA).astimezone(UTC)
+        t_ref = loop.time()
+
+        def real_us():
+            return int(round((loop.time() - t_ref) * 1000)) * 1000
+
+        def wall():
+            return (utc0 + dt.timedelta(microseconds=real_us())).astimezone(LA).replace(tzinfo=None)
+        recs = []
+        Function.register({"rec2": lambda fi, tt: recs.append([fi, tt, us_of(wall()), real_us()])})
+        old = trigger.dt_now
+        trigger.dt_now = wall
+        try:
+            env.write("c06dst.py", _dst_script(scen))
+            await env.reload()
+            await W._goto(env, (loop.time() - loop.T0) + scen["hours"] * 3600)
+        finally:
+            trigger.dt_now = old
+        return recs
+
+    try:
+        return run_ha({}, legacy, body, vnow_tick=False)
+    except Exception as e:
+        return "harness:" + type(e).__name__ + ":" + str(e)[:200]
+
+
+def _dst_r0(scen):
+    return (dt_of(scen["start"]).replace(tzinfo=LA).astimezone(UTC) - dt.datetime(1970, 1, 1, tzinfo=UTC)) // US
+
+
+def run_dst_cases(cases):
+    groups = {}
+    for c in cases:
+        groups.setdefault((json.dumps(c.payload["scen"], sort_keys=True), c.payload["legacy"]), []).append(c)
+    for k, cs in groups.items():
+        res = _run_dst((cs[0].payload["scen"], k[1]))
+        r0 = _dst_r0(cs[0].payload["scen"])
+        for c in cs:
+            if isinstance(res, str):
+                c.impl = res
+                continue
+            mine = [r for r in res if r[0] == c.payload["fi"]]
+            c.impl = " ".join(f"{us_of(dt.datetime.fromisoformat(tt))}@{w}@{r0 + r}" for _, tt, w, r in mine)
+
+
+def dst_line(c):
+    p = c.payload
+    scen, f = p["scen"], p["scen"]["funcs"][p["fi"]]
+    cron_ids = {}
+    spec = sx_tspec(f, cron_ids)
+    start = dt_of(scen["start"])
+    lists = []
+    for expr, cid in cron_ids.items():
+        ts, t = [], start - DAY
+        stop = start + dt.timedelta(hours=scen["hours"]) + 2 * DAY
+        while t is not None and t < stop:
+            t = cron_next(expr, t)
+            if t is not None:
+                ts.append(us_of(t))
+        lists.append([cid] + ts)
+    r0 = _dst_r0(scen)
+    p["_oracle"] = None
+    return "C06 " + sx(["dst", "legacy" if p["legacy"] else "new", [spec], scen["start"], r0, 400, r0 + scen["hours"] * H_US,
+                        ZREAL, ZNAIVE, lists])
+
+
+def _dst_runs(text):
+    return [tuple(int(x) for x in tok.split("@")) for tok in (text or "").split()]
+
+
+def _gray(which, t):
+    """the hours 01:00-04:00 of the DST night: local times that do not exist / exist twice, and the hour next to them into which
+    the affected runs spill (after spring-forward the 03:30 run of an hourly cron carries the non-existent trigger_time 02:30).
+    The documentation describes the cron behaviour there; the verdict does not judge it (the model tie still covers it)."""
+    x = dt_of(t)
+    return x.date() == DST_DAYS[which].date() and 1 <= x.hour < 4
+
+
+def dst_verdict(c):
+    p = c.payload
+    if (c.impl or "").startswith("harness:"):
+        return None
+    scen, f = p["scen"], p["scen"]["funcs"][p["fi"]]
+    which, sub = scen["which"], "legacy" if p["legacy"] else "new"
+    runs = _dst_runs(c.impl)
+    start = dt_of(scen["start"])
+    safe_end = us_of(start + dt.timedelta(hours=scen["hours"] - 3))       # a run near the end may still be pending
+    if f["kind"] in ("cron", "once"):
+        for tt, w, r in runs:
+            if _gray(which, tt) or _gray(which, w):
+                continue
+            if abs(w - tt) > 1000:
+                return (f"dst:{sub}:{f['kind']}:{which}:{'late' if w > tt else 'early'} | trigger_time {dt_of(tt)} ran when the "
+                        f"local wall clock read {dt_of(w)}")
+        # every denoted instant once
+        want, t = [], start
+        while True:
+            if f["kind"] == "cron":
+                t = cron_next(f["expr"], t)
+            else:
+                tm = f["d"][2]
+                cand = t.replace(hour=tm[1], minute=tm[2], second=tm[3] // 1000000, microsecond=0)
+                t = cand if cand > t else cand + DAY
+            if t is None or us_of(t) > safe_end:
+                break
+            if not _gray(which, us_of(t)):
+                want.append(us_of(t))
+        got = [tt for tt, w, r in runs if tt <= safe_end and not _gray(which, tt)]
+        if got != want:
+            return (f"dst:{sub}:{f['kind']}:{which}:instants | trigger_times {[str(dt_of(x)) for x in got][:6]} expected "
+                    f"{[str(dt_of(x)) for x in want][:6]}")
+        return None
+    if f["s"][1] == "none":
+        return None          # time-only period(): daily re-anchoring, tie only
+    per = off_us(f["per"])
+    for (t1, w1, r1), (t2, w2, r2) in zip(runs, runs[1:]):
+        if abs((r2 - r1) - per) > 1000:
+            return (f"dst:period:unequal-spacing | period instants {dt_of(t1)} and {dt_of(t2)} ran {(r2 - r1) / 3.6e9:g} h apart "
+                    f"(interval {per / 3.6e9:g} h, {sub}, {which})")
+        if t2 - t1 != per:
+            return f"dst:{sub}:period:{which}:trigger_time-step | {dt_of(t1)} -> {dt_of(t2)}"
+    return None
 
 
 # ------------------------------------------------------------------------------------------------ driver lines
@@ -703,6 +930,8 @@ def tab_sx(tabs):
 
 def make_line(c):
     p = c.payload
+    if p["kind"] == "dst":
+        return dst_line(c)
     if p["kind"] == "offset":
         p["_oracle"] = str(off_us(p["off"]))
         return "C06 " + sx(["off", off_ast(p["off"])])
@@ -756,6 +985,8 @@ def split(outline):
 def verdict(c):
     p = c.payload
     want = p.get("_oracle")
+    if p["kind"] == "dst":
+        return dst_verdict(c)
     if p["kind"] == "ha":
         if " late=" in (c.impl or ""):
             return "run happened away from its trigger_time: " + c.impl.split(" late=")[1][:80]
@@ -792,6 +1023,8 @@ def _adj_only_diff(a, b):
 
 def classify(c, reason):
     p = c.payload
+    if p["kind"] == "dst":
+        return reason.split(" | ")[0]
     if p["kind"] != "next":
         return p["kind"] + ":" + re.sub(r"\d+", "N", reason)[:50]
     if not reason.startswith("next=") and "is not after now" not in reason:
@@ -878,13 +1111,18 @@ def replay_cases(obj):
 def extra_coverage(cases):
     cov = {"streams": {}, "spec_kinds": {}, "once_date_forms": {}, "time_forms": {}, "period_shapes": {}, "answers": {"none": 0, "some": 0, "raise": 0},
            "strict_class_cases": 0, "boundary_nows": 0, "requeried": 0, "dst_day_cases": 0, "leap_day_cases": 0, "ha_runs_checked": 0,
-           "startup_shutdown_functions": 0}
+           "startup_shutdown_functions": 0, "dst_runs_checked": {}, "dst_functions": {}}
 
     def bump(d, k):
         d[k] = d.get(k, 0) + 1
     for c in cases:
         p = c.payload
         bump(cov["streams"], p["kind"])
+        if p["kind"] == "dst":
+            key = p["scen"]["which"] + "/" + ("legacy" if p["legacy"] else "new") + "/" + p["scen"]["funcs"][p["fi"]]["kind"]
+            bump(cov["dst_functions"], key)
+            cov["dst_runs_checked"][key] = cov["dst_runs_checked"].get(key, 0) + len((c.impl or "").split())
+            continue
         if p["kind"] == "ha":
             cov["ha_runs_checked"] += len((c.impl or "").split())
             f = p["scen"]["funcs"][p["fi"]]
